@@ -94,7 +94,9 @@ def cases(rng: random.Random, tier: str):
         if rng.random() < 0.04:   # make the condition certainly impossible
             var, val = conds[0]
             n0 = int(var[1])
-            conds[0] = [K.mkvar(n0, [(n_, s) for n_, s in var[4] if int(n_) != n0] + [(n0, "p" if val == "m" else "m")]), val]
+            nv = K.mkvar(n0, [(n_, s) for n_, s in var[4] if int(n_) != n0] + [(n0, "p" if val == "m" else "m")])
+            if C.enc(nv) not in {C.enc(v_) for v_, _ in conds + outs}:
+                conds[0] = [nv, val]
         out.append(c)
     return out
 
@@ -347,6 +349,9 @@ def _judge(case, res, exc, n_models, strategy=None):
 def _in_domain(case):
     if not case["outcomes"] or not case["conditions"]:
         return False
+    for ev in (case["outcomes"], case["conditions"]):
+        if len({C.enc(var) for var, _ in ev}) != len(ev):
+            return False    # not a dict: the same key twice
     if {C.enc(var) for var, _ in case["outcomes"]} & {C.enc(var) for var, _ in case["conditions"]}:
         return False    # the same counterfactual variable as outcome and as condition: degenerate, kept out of the domain
     return C18._in_domain({"g": case["g"], "event": case["outcomes"] + case["conditions"]})
